@@ -479,6 +479,8 @@ def dateFromNumber(number):
             raise ValueError()
         return ValueDate(to_date(number))
     except (ValueError, OverflowError):
+        if isinstance(number, int):
+            number = ValueInt(number)
         raise CklRuntimeError(
             ValueString("ERROR"), "Cannot convert " + str(number) + " to date"
         )
@@ -987,7 +989,21 @@ class ValueInt(Value):
         return self.value < other.value
 
     def __repr__(self):
-        return str(self.value)
+        try:
+            return str(self.value)
+        except ValueError:
+            # the host renders only a limited number of digits in one
+            # piece: render longer numbers piecewise
+            base = 10 ** 600
+            rest = abs(self.value)
+            pieces = []
+            while rest >= base:
+                rest, piece = divmod(rest, base)
+                pieces.append(str(piece).zfill(600))
+            pieces.append(str(rest))
+            if self.value < 0:
+                pieces.append("-")
+            return "".join(reversed(pieces))
 
     def type(self):
         return "int"
